@@ -125,10 +125,14 @@ def build_goal(env, spec, strategy, real=None):
             gl.add_soft_clause(pys.build(env, c), mgr.Real(w) if real else mgr.Int(w))
         return gl
     fs = [pys.build(env, t) for t in terms]
-    if kind == "min":
-        return MinimizationGoal(fs[0], signed)
-    if kind == "max":
-        return MaximizationGoal(fs[0], signed)
+    if kind in ("min", "max"):
+        cls = MinimizationGoal if kind == "min" else MaximizationGoal
+        if signed and len(repr(terms)) % 2:
+            # signedness declared through the public property, after construction
+            gl = cls(fs[0])
+            gl.signed = True
+            return gl
+        return cls(fs[0], signed)
     if kind == "minmax":
         return MinMaxGoal(fs, signed)
     return MaxMinGoal(fs, signed)
